@@ -165,3 +165,33 @@ func TestRunChild(t *testing.T) {
 	}
 	runChildMain(*flagRole, *flagKillDir, *flagChildSc)
 }
+
+// TestEnumOne runs the enumerator items of a property in-process (debugging aid).
+func TestEnumOne(t *testing.T) {
+	if *flagRole != "enum1" {
+		t.Skip()
+	}
+	pd := Props[*flagProp]
+	for _, it := range pd.Items(*flagTier) {
+		if it.Kind != "enum" {
+			continue
+		}
+		if it.Scenario != nil && !strings.Contains(it.Scenario.Name, *flagScenario) {
+			continue
+		}
+		it := it
+		if os.Getenv("MC_PRE_BUBBLE") != "" {
+			// reproduce a worker that ran a bubble execution before an enumerator outside a bubble
+			sc := &Scenario{Name: "pre", Plans: []PlanSpec{{Blocks: []BlockSpec{{Seqs: []SeqSpec{Seq(A())}}}}}}
+			RunExecution(t, sc, func(step int, en []string) string { return en[0] }, &funcMon{}, ExecOpts{})
+		}
+		if os.Getenv("MC_NO_FRESH_POOL") == "" {
+			defer freshDefaultPool()()
+		}
+		res := pd.Enum(&EnumEnv{T: t, Tier: *flagTier}, &it)
+		fmt.Printf("shard %d/%d: evals=%d distinct=%d found=%d notes=%v\n", it.Shard, it.NShards, res.Evaluations, res.Distinct, len(res.Found), res.Notes)
+		for _, f := range res.Found {
+			fmt.Printf("  %s: %s\n", f.V.Key(), f.V.Msg)
+		}
+	}
+}
